@@ -506,3 +506,97 @@ func Bool(m map[string]any, k string) bool {
 	b, _ := m[k].(bool)
 	return b
 }
+
+// RunSelfWorker re-executes this binary as `__worker <name> <in.json> <out.json>` (crash isolation,
+// private working directory). The worker reads its input from in.json and writes out.json.
+func (c *Ctx) RunSelfWorker(name string, in any, out any, timeout time.Duration) (stderr string, err error) {
+	dir, err := os.MkdirTemp(c.Scratch, "w-"+name+"-")
+	if err != nil {
+		return "", err
+	}
+	defer os.RemoveAll(dir)
+	inF, outF := filepath.Join(dir, "in.json"), filepath.Join(dir, "out.json")
+	b, err := json.Marshal(in)
+	if err != nil {
+		return "", err
+	}
+	if err := os.WriteFile(inF, b, 0o644); err != nil {
+		return "", err
+	}
+	self, _ := os.Executable()
+	ctx, cancel := context.WithTimeout(context.Background(), timeout)
+	defer cancel()
+	cmd := exec.CommandContext(ctx, self, "__worker", name, inF, outF, dir)
+	cmd.Env = append(os.Environ(), "GOFLAGS=-mod=mod", "GOPROXY=off", "GOSUMDB=off", "GOTOOLCHAIN=local")
+	var eb bytes.Buffer
+	cmd.Stderr = &eb
+	cmd.Stdout = &eb
+	runErr := cmd.Run()
+	if ctx.Err() != nil {
+		return eb.String(), fmt.Errorf("worker %s: timeout after %s", name, timeout)
+	}
+	if runErr != nil {
+		return eb.String(), fmt.Errorf("worker %s: %v", name, runErr)
+	}
+	ob, err := os.ReadFile(outF)
+	if err != nil {
+		return eb.String(), err
+	}
+	d := json.NewDecoder(bytes.NewReader(ob))
+	if err := d.Decode(out); err != nil {
+		return eb.String(), err
+	}
+	return eb.String(), nil
+}
+
+// WorkerIO is used inside a worker: decode the input, run, encode the output.
+func WorkerIO[I any, O any](args []string, f func(in I, dir string) O) {
+	var in I
+	b, err := os.ReadFile(args[0])
+	if err != nil {
+		panic(err)
+	}
+	if err := json.Unmarshal(b, &in); err != nil {
+		panic(err)
+	}
+	out := f(in, args[2])
+	ob, err := json.Marshal(out)
+	if err != nil {
+		panic(err)
+	}
+	if err := os.WriteFile(args[1], ob, 0o644); err != nil {
+		panic(err)
+	}
+}
+
+// JudgeTrace writes recs as a trace, runs a verdict-style trace spec and returns the failing verdicts.
+func (c *Ctx) JudgeTrace(res *Result, module string, recs []any) ([]map[string]any, error) {
+	trace := filepath.Join(c.Scratch, module+"-trace.ndjson")
+	if err := WriteNDJSON(trace, recs); err != nil {
+		return nil, err
+	}
+	vf := filepath.Join(c.Scratch, module+"-verdicts.ndjson")
+	os.Remove(vf)
+	t, err := c.RunTLC(TLCOpts{Module: module, Config: module + ".cfg", Workers: 1, HeapGB: 8,
+		Env: map[string]string{"VERIF_TRACE": trace, "VERIF_OUT": vf}, Timeout: 30 * time.Minute})
+	if err != nil {
+		return nil, err
+	}
+	if err := t.MustClean(module); err != nil {
+		return nil, err
+	}
+	res.AddTLC(t)
+	vs, err := ReadNDJSON(vf)
+	if err != nil || len(vs) == 0 || Int(vs[0], "consumed") != len(recs) {
+		return nil, Inconcl("%s: verdict file incomplete (%v)", module, err)
+	}
+	for _, v := range vs[1:] {
+		if strings.HasPrefix(Str(v, "why"), "harness:") {
+			return nil, Inconcl("%s: %s (case %d)", module, Str(v, "why"), Int(v, "case"))
+		}
+	}
+	if os.Getenv("VERIF_KEEP") == "" {
+		os.Remove(trace)
+	}
+	return vs[1:], nil
+}
